@@ -84,6 +84,11 @@ func (l *Loader) SetOverlay(overlay func(path string) (string, bool)) {
 	l.overlay = overlay
 }
 
+// OpenContent returns the text of a file that is open in the editor.
+func (l *Loader) OpenContent(path string) (string, bool) {
+	return l.overlayContent(path)
+}
+
 func (l *Loader) overlayContent(path string) (string, bool) {
 	l.mu.RLock()
 	overlay := l.overlay
